@@ -20,6 +20,7 @@ import os
 import gridlib as gl
 import vlib
 import c04treewalk
+import rlqtie
 
 LEVEL = "proof"
 PID = "C05"
@@ -794,10 +795,14 @@ def run(res, tier, seed, only=None):
     # the tree walk of differentiate / derivative sparse rows (walkTree modes 3 and 4): visited sequences and gradients vs the extracted model
     if not only:
         c04treewalk.run_diff(res, tier, seed)
+    # getNode / getSupport / scaleDiffX re-translated from the current header, re-proved equal to the model (scaleDiffX = 1 / support is the chain-rule factor)
+    rlq_break = rlqtie.run(res, PID) if not only else None
     if mism and not res.violations:
         res.violation("correspondence", "RuleLocal model and implementation disagree on %d points, e.g. %s" % (len(mism), mism[0][:300]),
                       {"kind": "correspondence-break", "correspondence": "Model.RuleLocal getNode/getSupport/scaleDiffX/evalRaw/evalSupport/diffSupport vs RuleLocal:: templates",
                        "examples": mism[:10]}, no_input=True)
+    if rlq_break is not None:
+        rlqtie.report(res, rlq_break)
     if proof_broken and not res.violations:
         res.violation("proof", "proof obligations of Properties_C05.v no longer check (%d/%d) %s" % (props["discharged"], props["obligations"], res.coverage["forbidden_tokens"][:2]),
                       {"kind": "proof-break", "theorems": props["theorems"], "log": props["log"][-3000:]}, no_input=True)
